@@ -272,8 +272,40 @@ func s10() *sched.Scenario {
 		}}
 }
 
+// S11: a permitted peer connects to the relayed listener of a TCP allocation (accept loop: permission
+// check, then registration under the manager lock) while the allocation is torn down by Refresh 0
+// (manager lock, then every permission removed); callbacks yield.
+func s11() *sched.Scenario {
+	return &sched.Scenario{Name: "S11-inbound-peer-connection-vs-teardown", Bound: bound(), FreeBound: -1, Opt: opt,
+		Body: func(*vsched.Sched) (func() []string, func()) {
+			w := sched.NewBW(sched.BCfg{Stream: true, CB: yieldCB})
+			c := w.NewClient("c1")
+			var f flags
+			vsched.Go("client", func() {
+				r := c.Do(wire.Allocate, func(b *wire.B) { b.U32(wire.AttrRequestedTransport, 6<<24) })
+				relay, ok := r.XorAddr(wire.AttrXORRelayedAddress)
+				if !ok {
+					vsched.Fail("tcp-allocate-failed")
+
+					return
+				}
+				c.Do(wire.CreatePermission, func(b *wire.B) { peer("A")(b); peer("B")(b) })
+				vsched.Mark()
+				vsched.Go("peer", func() {
+					pa := vtx.PeerSpec["A"]
+					_, _ = w.Net.DialTCPAddr(&net.TCPAddr{IP: pa.IP, Port: pa.Port}, &net.TCPAddr{IP: relay.IP, Port: relay.Port})
+					f.set("peer")
+				})
+				c.Do(wire.Refresh, lifetime(0))
+				f.set("client")
+			})
+
+			return f.need("client", "peer"), func() { _ = w.Srv.Close() }
+		}}
+}
+
 func scenarios() []*sched.Scenario {
-	return []*sched.Scenario{s1(), s2(), s3(), s4(), s5(), s6(), s7(), s8(), s10()}
+	return []*sched.Scenario{s1(), s2(), s3(), s4(), s5(), s6(), s7(), s8(), s10(), s11()}
 }
 
 func TestC18Sched(t *testing.T) {
